@@ -19,7 +19,8 @@ Three parties are compared on the same cases:
 (c) conversations: a real Connection talks to refcodec's peer and exercises EVERY published handler 1..20 (ping,
     close, getroot, getattr, delattr, setattr, call, callattr, repr, str, cmp, hash, dir, pickle (refused), del,
     inspect, buffiter, old slicing, leaving a `with proxy:` block (CTXEXIT), isinstance across the connection), plus
-    remote exceptions: every packet the real side emits is decoded with the reference decoder,
+    keyword-argument calls (CALL and CALLATTR, kwargs as a tuple of pairs; also omitted), built-in and custom remote
+    exceptions with the attrs / traceback positions of the dumped tuple checked: every packet the real side emits is decoded with the reference decoder,
     checked against the published message layout and re-encoded (bytes equal; also rebuilt by the Lean
     `Msg.wire`); the peer answers in non-shortest forms and at other zlib levels and the real side must produce
     the expected Python values.  Vice versa the reference peer composes the requests and a real Connection
@@ -40,43 +41,57 @@ from props import c04
 ID = "C19"
 LEAN_MODULE = "RpycModel.Props.C19"
 NAMESPACE = "Rpyc.Props.C19"
-GEN = ["Brine.lean", "Consts.lean", "Wire.lean"]   # Wire.lean only through frame_eq_wire_model (C05's model)
+GEN = ["Brine.lean", "Consts.lean", "Recorded.lean", "Wire.lean"]   # Wire.lean only through frame_eq_wire_model (C05's model)
 DRIVERS = ["drv_spec"]
 TRUSTED = [
-    "the published format is a hand transcription of the 5.0.x release (lean/RpycModel/Spec/Published.lean and, "
-    "independently, harness/refcodec.py); the brine docstring's printed example is checked against both",
+    "ADMITTED: the published format is a hand transcription of the 5.0.x release by the same author as the model "
+    "(lean/RpycModel/Spec/Published.lean incl. the per-handler argument layouts, reply shapes and the dumped-exception "
+    "tuple; independently re-typed in harness/refcodec.py); only the brine docstring's printed example is an external "
+    "test vector",
+    "ADMITTED: Spec/Code.lean (what Channel.send/recv, _send, _box, _async_request, _dispatch_request, _dispatch, _unbox "
+    "do to bytes) is hand-written over the regenerated constants; theorems box_layout / msg_layout_* / "
+    "dispatch_reads_published / unbox_reads_published are therefore definitional given gen_eq_published. It is tied to "
+    "the code (a) by the generated facts of Gen/Recorded.lean (what the live _box, the live call sites, the live "
+    "_dispatch_request and the live _dispatch did on fixed probes when the constants were regenerated: theorems "
+    "recorded_*), Gen/Consts.lean handlerArity (inspect.signature) and callSites (AST), and (b) by this correspondence",
     "modelled, not verified: zlib is a parameter of the frame theorems (only `inflate (deflate b) = b` is assumed of "
-    "the receiver's zlib); struct '!d' bit transparency; str(int) = canonical decimal; CPython's strict UTF-8 = the "
-    "model's codec",
-    "Spec/Code.lean (what `Channel.send/recv`, `_send`, `_box`, `_dispatch` do to bytes) is hand-written over the "
-    "regenerated constants and tied to the code by this correspondence",
+    "the receiver's zlib); struct '!d' bit transparency (struct_formats_published is one generated Boolean); "
+    "str(int) = canonical decimal; CPython's strict UTF-8 = the model's codec",
+    "the semantics of the handlers beyond their argument layout (what getattr/call/... DO) is C01/C02/C06/C07's subject; "
+    "here: number, arity, argument kinds, reply shape where fixed, and the conversation outcomes with the reference peer",
 ]
 ASSUMPTIONS = [
     "integers beyond the interpreter's int<->str digit limit are outside the statement (a published peer may send "
-    "them; this interpreter's int()/str() refuse them: ValueError) — theorem hypothesis `Renderable`",
+    "them; this interpreter's int()/str() refuse them: ValueError) — theorem hypotheses `Renderable` / `Parsable`",
     "text: the published rule is strict UTF-8; the tree under check additionally encodes/accepts lone surrogates in the "
     "three-byte form (surrogatepass). That is a superset: no published encoding changes (theorem enc_eq_specEnc on "
     "ScalarText values, enc_eq_specEnc_any_text for the rest); such values are compared against `spec encx`",
     "lengths >= 2**32 are refused by both sides with the packer's error (proved, not generated)",
+    "the recorded probes (Gen/Recorded.lean) are finitely many fixed inputs: they tie the model's shape to the code, the "
+    "quantified statements are about the model",
 ]
 EXPLANATION = (
-    "Theorems (Rpyc.Props.C19, all for unbounded sizes and nesting): (1) gen_eq_published and one lemma per constant "
-    "group (tags_published, load_registry_published, imm_window_published, struct_formats_published, "
+    "Theorems (Rpyc.Props.C19, unbounded sizes and nesting where quantified): (1) gen_eq_published and one lemma per "
+    "constant group (tags_published, load_registry_published, imm_window_published, struct_formats_published, "
     "msg_kinds_published, labels_published, handlers_published, handler_routing_published, exc_published, "
     "frame_consts_published, consts_complete) plus one lemma per single constant in Spec/Lemmas.lean, so a moved "
     "constant is named; tag_table_unambiguous. (2) enc_eq_specEnc: dump v = specEnc v for every value (mutual "
-    "structural induction), where specEnc searches the published form table for the shortest fitting form instead "
-    "of following the code's if-ladder; enc_eq_specEnc_any_text covers text with lone surrogates (the tree under "
-    "check writes them in the three-byte form: a superset of the published strict-UTF-8 rule that changes no "
-    "published encoding; the real decoder accepting those forms is likewise a superset, not contrary to the "
-    "statement); doc_sample_published: the example printed in brine's documentation. (3) enc_shortest + "
-    "enc_in_grammar + pick_is_shortest_fitting: among all byte strings denoting v in the grammar Denotes, dump v is "
-    "one of minimal length. (4) dec_complete(_stream): every sentence of the grammar, in any legal (also "
-    "non-shortest) length class, is loaded as exactly the value it denotes. (5) frame_layout, frame_eq_spec, "
-    "frame_eq_wire_model (C05's independently written frame model is the same published frame), "
-    "recv_accepts_conforming_frame / recv_follows_flag (any compressor, any level, flag decides). (6) box_layout, "
-    "msg_layout_request/reply/exception, msg_layout_wire, request_wire/reply_wire/exception_wire, "
-    "dispatch_reads_published, unbox_reads_published. Nothing is admitted; all six items of DESIGN 5/C19 are proved.")
+    "structural induction), specEnc searching the published form table for the shortest fitting form; "
+    "enc_eq_specEnc_any_text covers text with lone surrogates (superset of the published strict rule, no published "
+    "encoding changes; the decoder accepting those forms is likewise a superset); doc_sample_published. (3) "
+    "enc_shortest + enc_in_grammar + pick_is_shortest_fitting. (4) dec_complete(_stream): every sentence of the grammar "
+    "Denotes, in any legal length class, is loaded as exactly the value it denotes. (5) frame_layout, frame_eq_spec, "
+    "frame_eq_wire_model, recv_accepts_conforming_frame / recv_follows_flag. (6) box_layout, msg_layout_request/"
+    "reply/exception, *_wire, dispatch_reads_published, unbox_reads_published — definitional over the hand-written "
+    "Spec/Code.lean given (1). (6b) below (kind, seq, args): handler_arity_published (inspect.signature of every "
+    "_handle_*), call_sites_fit_published (every HANDLE_* call site of the package, AST), operations_use_published_"
+    "handlers, recorded_requests_conform (every request the live call sites emitted has the published per-handler "
+    "argument layout: names as text, args as a tuple, kwargs as a tuple of (name, value) pairs, id_pack triples, "
+    "counts), recorded_box_matches_model, recorded_requests_match_model, recorded_responses_published (replies, the "
+    "dumped-exception tuple ((module, name), args, attrs, tb) for built-in and custom exceptions, EXC_STOP_ITERATION), "
+    "recorded_dispatch_matches_model (bool/float/complex message kinds as Python == treats them), handler_args_total. "
+    "Admitted (see trusted_base): the transcription of the published format itself; Spec/Code.lean is hand-written "
+    "and tied by finitely many recorded probes plus the correspondence; handler semantics beyond layout.")
 
 LIMIT = c04.LIMIT
 
@@ -553,7 +568,7 @@ def run_client_conversation(seed, idx):
     problems, ops, frames = [], [], []
     conn = rpyc.VoidService()._connect(channel.Channel(st, compress), {})
 
-    def step(name, fn, expect=None, raises=None):
+    def step(name, fn, expect=None, raises=None, check_exc=None):
         try:
             got = fn()
         except Stalled as ex:
@@ -563,6 +578,10 @@ def run_client_conversation(seed, idx):
         except BaseException as ex:  # noqa
             if raises is not None and type(ex).__name__ == raises[0] and (raises[1] is None or ex.args == raises[1]):
                 ops.append((name, "raised " + raises[0]))
+                if check_exc is not None:
+                    bad = check_exc(ex)
+                    if bad:
+                        problems.append("%s: %s" % (name, bad))
                 return None
             problems.append("%s: raised %s%r, expected %s" % (name, type(ex).__name__, ex.args[:2], raises or "a value"))
             ops.append((name, "raised " + type(ex).__name__))
@@ -575,7 +594,7 @@ def run_client_conversation(seed, idx):
         return got
 
     script = ["ping", "pingv", "attr", "attr", "extra", "add", "echo", "call", "fail", "stop", "missing", "big", "del",
-              "setdel", "strrepr", "hashcmp", "dir", "pickle", "buffiter", "oldslice", "with", "isinstance"]
+              "kwargs", "custom", "setdel", "strrepr", "hashcmp", "dir", "pickle", "buffiter", "oldslice", "with", "isinstance"]
     r.shuffle(script)
     if idx % FULL_EVERY != 0:              # every FULL_EVERY-th conversation runs the whole script: all 20 handlers
         script = script[:r.range(6, len(script))]
@@ -620,6 +639,19 @@ def run_client_conversation(seed, idx):
         elif op == "del":
             g = step("getattr fn", lambda: root.fn)
             del g
+        elif op == "kwargs":
+            b, cc = r.range(-5, 500), conv_value(r)
+            step("call kw(1, c=, b=)", lambda: root.kw(1, c=cc, b=b), expect=((1, b, cc),))
+            step("callattr kw(2, b=)", lambda: type(root).kw(root, 2, b=b), expect=((2, b, 0),))
+        elif op == "custom":
+            def chk(ex):
+                if getattr(ex, "code", None) != 7:
+                    return "attribute `code` of the dumped exception was not applied (attrs position)"
+                if "refpeer.CustomError: m" not in str(getattr(ex, "_remote_tb", "")):
+                    return "the traceback text of the dumped exception did not arrive (tb position): %r" % (
+                        getattr(ex, "_remote_tb", None),)
+                return None
+            step("call custom", lambda: root.custom(), raises=("refpeer.CustomError", ("m", 3)), check_exc=chk)
         elif op == "setdel":
             v = conv_value(r)
 
@@ -685,6 +717,10 @@ def run_client_conversation(seed, idx):
                 handlers=sorted(peer.handled))
 
 
+class CustomErr(Exception):
+    """a non-builtin exception raised by the real service"""
+
+
 class Box:
     """a plain object behind the real service: settable attribute, fixed str/repr/hash, == 5"""
     def __eq__(self, other):
@@ -738,6 +774,14 @@ def make_service():
         def exposed_it(self):
             return iter(range(7))
 
+        def exposed_kw(self, a, b=0, c=0):
+            return (a, b, c)
+
+        def exposed_custom(self):
+            e = CustomErr("m", 3)
+            e.code = 7
+            raise e
+
         def exposed_add(self, a, b):
             return a + b
 
@@ -766,6 +810,7 @@ def run_server_conversation(seed, idx):
     consumed = [0]
     problems, ops, frames = [], [], []
     answered = set()
+    replies = []
     R = refcodec
 
     def rpc(name, handler, boxed, want=None, want_exc=None, no_reply=False):
@@ -795,14 +840,28 @@ def run_server_conversation(seed, idx):
             return None
         ops.append((name, msg[0]))
         answered.add(R.HANDLERS[handler])
+        if msg[0] == "reply":
+            replies.append((R.HANDLERS[handler], msg[2]))
         if want_exc is not None:
             if msg[0] != "exception":
                 problems.append("%s: expected exception %s, got %r" % (name, want_exc, msg[:3]))
             elif want_exc == "StopIteration":
                 if msg[2] != R.EXC_STOP_ITERATION:
                     problems.append("%s: StopIteration did not travel as EXC_STOP_ITERATION: %r" % (name, msg[2]))
-            elif not (type(msg[2]) is tuple and msg[2][0] == ("builtins", want_exc[0]) and (want_exc[1] is None or msg[2][1] == want_exc[1])):
+            elif not (type(msg[2]) is tuple and msg[2][0] == (want_exc[2] if len(want_exc) > 2 else "builtins", want_exc[0])
+                      and (want_exc[1] is None or msg[2][1] == want_exc[1])):
                 problems.append("%s: expected %s, got %r" % (name, want_exc, msg[2][:2] if type(msg[2]) is tuple else msg[2]))
+            else:
+                # positions 2 and 3 of the dumped exception: ((attribute, value), ...) and the traceback text
+                attrs, tb = msg[2][2], msg[2][3]
+                names = [a[0] for a in attrs if type(a) is tuple and len(a) == 2 and type(a[0]) is str]
+                if type(attrs) is not tuple or len(names) != len(attrs) or "_remote_version" not in names:
+                    problems.append("%s: attrs position of the dumped exception is not ((name, value), ..) with "
+                                    "_remote_version: %r" % (name, attrs))
+                if type(tb) is not str or ("Traceback" not in tb and "denied" not in tb) or want_exc[0] not in tb:
+                    problems.append("%s: traceback position of the dumped exception: %r" % (name, tb[-120:] if type(tb) is str else tb))
+                if len(want_exc) > 3 and want_exc[3] not in [tuple(a) for a in attrs]:
+                    problems.append("%s: attribute %r missing among the dumped exception's attrs" % (name, want_exc[3]))
             return None
         if msg[0] != "reply":
             problems.append("%s: expected a reply, got %r" % (name, msg[:3]))
@@ -818,7 +877,7 @@ def run_server_conversation(seed, idx):
         return R.box_tuple(R.box_local(x.id_pack) if isinstance(x, Ref) else R.box_value(x) for x in items)
 
     script = ["ping", "ping", "big", "attr", "add", "echo", "callfn", "fail", "stop", "missing", "badref",
-              "box", "strrepr", "hashcmp", "dir", "pickle", "inspect", "buffiter", "oldslice", "with", "isinstance"]
+              "kwargs", "custom", "box", "strrepr", "hashcmp", "dir", "pickle", "inspect", "buffiter", "oldslice", "with", "isinstance"]
     r.shuffle(script)
     if idx % FULL_EVERY != 0:              # every FULL_EVERY-th conversation runs the whole script: all 20 handlers
         script = script[:r.range(6, len(script))]
@@ -874,6 +933,16 @@ def run_server_conversation(seed, idx):
             rpc("callattr stop", "CALLATTR", args_boxed([root, "stop", (), ()]), want_exc="StopIteration")
         elif op == "missing":
             rpc("getattr missing", "GETATTR", args_boxed([root, "nothing_here"]), want_exc=("AttributeError", None))
+        elif op == "kwargs":
+            b, cc = r.range(-5, 500), conv_value(r)
+            rpc("callattr kw(1, c=, b=)", "CALLATTR", args_boxed([root, "kw", (1,), (("c", cc), ("b", b))]), want=((1, b, cc),))
+            fb = rpc("getattr kw", "GETATTR", args_boxed([root, "kw"]))
+            if fb is not None and fb[0] == R.LABEL_REMOTE_REF:
+                rpc("call kw(2, b=)", "CALL", args_boxed([Ref(fb[1]), (2,), (("b", b),)]), want=((2, b, 0),))
+                rpc("call kw(3)", "CALL", args_boxed([Ref(fb[1]), (3,)]), want=((3, 0, 0),))       # kwargs omitted
+        elif op == "custom":
+            rpc("callattr custom", "CALLATTR", args_boxed([root, "custom", (), ()]),
+                want_exc=("CustomErr", ("m", 3), CustomErr.__module__, ("code", 7)))
         elif op == "box":
             bx = fetch("box")
             if bx is not None:
@@ -950,7 +1019,7 @@ def run_server_conversation(seed, idx):
     if not conn.closed:
         problems.append("the real connection did not close on HANDLE_CLOSE")
     audit_real_frames(bytes(st.out), compress, problems, frames)
-    return dict(direction="server", problems=problems, frames=frames, ops=ops, forms=pol.used,
+    return dict(direction="server", problems=problems, frames=frames, ops=ops, forms=pol.used, replies=replies,
                 handlers=sorted(answered | ({R.HANDLERS["CLOSE"]} if conn.closed else set())))
 
 
@@ -982,7 +1051,8 @@ def correspondence(ctx):
               "through the real Channel.recv and as pings echoed by a real Connection (vs refcodec only); "
               "(c) seeded conversations real Connection <-> reference peer in both roles (every 10th runs the full script: all 20 "
               "handler numbers in each direction, counted in handlers_exercised_per_direction), every real packet reference-"
-              "decoded, layout-checked, re-encoded and rebuilt by Lean Msg.wire. Non-trivial: anything but the empty "
+              "decoded, layout-checked, re-encoded, rebuilt by Lean Msg.wire and checked against the published per-handler "
+              "argument layout (Msg.conforms); real replies against the published reply shapes (replyConforms). Non-trivial: anything but the empty "
               "payload / None; distinct = distinct (part, constructor or op, size class, form set, outcome).")
     r = Rng(ctx.seed).fork("c19")
     quick = ctx.tier != "thorough"
@@ -1141,8 +1211,13 @@ def correspondence(ctx):
             for kind, val, data in res["frames"]:
                 c.count("real-frame:" + kind)
                 t = to_text_ordered(val)
-                add("spec msg " + t, "msg", t, "ok %s %s" % (kind, data.hex()),
+                add("spec msg " + t, "msg", t, "ok %s %s layout-ok" % (kind, data.hex()),
                     "msg:%s:%s:%d" % (kind, val[2][0] if kind == "request" else "-", size_class(len(data))))
+            for h, boxed in res.get("replies", ()):
+                if len(valtext.to_text(boxed)) < 20000:
+                    c.count("real-reply-shape:handler%d" % h)
+                    add("spec reply %d %s" % (h, valtext.to_text(boxed)), "reply-shape", "handler %d" % h, "ok layout-ok",
+                        "reply:%d:%s" % (h, boxed[0]))
             if len(c.samples) < 6 and idx == 3:
                 c.samples.append(dict(part="conversation", direction=direction, ops=res["ops"][:14],
                                       real_packets=[(k, d.hex()[:80]) for k, _v, d in res["frames"][:5]]))
@@ -1348,6 +1423,6 @@ def replay(case):
         out["oracle"] = "; ".join(res["problems"]) or "holds"
         lines = ["spec msg " + to_text_ordered(val) for _k, val, _d in res["frames"][:50]]
         outs = run_driver(lines, exe="drv_spec") if lines else []
-        out["model"] = ["agrees" if o == "ok %s %s" % (k, d.hex()) else o[:120]
+        out["model"] = ["agrees" if o == "ok %s %s layout-ok" % (k, d.hex()) else o[:120]
                         for o, (k, _v, d) in zip(outs, res["frames"][:50])]
     return out
